@@ -22,6 +22,7 @@ static int op_reset(int argc, char **argv)
    find_reset();
    bufr_set_debug(0);
    bufr_set_verbose(0);
+   switch_reset();
    fputs("ok", bvp_out);
    return 0;
    }
@@ -36,7 +37,7 @@ static int op_dbg(int argc, char **argv)
    }
 static struct op_entry ops_core[] = { { "reset", op_reset }, { "dbg", op_dbg }, { NULL, NULL } };
 
-static struct op_entry *tables[] = { ops_core, ops_bits, ops_template, ops_ieee, ops_codec, ops_tables, ops_frame, ops_scale, ops_find, ops_local, ops_dump, ops_tmpltext, NULL };
+static struct op_entry *tables[] = { ops_core, ops_bits, ops_template, ops_ieee, ops_codec, ops_tables, ops_frame, ops_scale, ops_find, ops_local, ops_dump, ops_tmpltext, ops_switch, NULL };
 
 int bvp_parse_hex(const char *s, unsigned char **out)
    {
